@@ -588,6 +588,9 @@ def place_write_targets(f, pl, borrow=False):
     if borrow and out:
         # a `&mut a.b.c` borrow may only write c (callees that receive it record their own writes)
         out = out[-1:]
+    elif out:
+        # the innermost field is the one actually (wholly) assigned: also recorded as (owner, "=field")
+        out.append((out[-1][0], "=" + out[-1][1]))
     if not saw_field and not borrow:
         # whole-value store through deref
         if proj and proj[0] == "*":
